@@ -28,6 +28,7 @@ COMPONENTS_REAL = ["all 18 gemclus estimators (fit, fit_predict, predict, predic
                    "scikit-learn optimisers (real updates)", "gemclus GEMINIs, compiled KAURI split finder"]
 COMPONENTS_STUB = ["crash injection: BaseOptimizer.update_params raising at step k, SimGemini.evaluate raising at call k, SimKernel raising at call k",
                    "the user (op sequence) and the user's own model of the hyper-parameters it set",
+                   "seams.TwoTasks: seeded baton-passing scheduler over two real threads (judged call || fit of a second estimator), switching at optimiser-step and GEMINI-evaluation seams",
                    "crash at an arbitrary point: seams.LineCrash (sys.settrace) raises when the k-th source line of the library is about to run, in interrupted calls of the history"]
 ASSUMPTIONS = ["integer random_state only (random_state=None is out of the property's scope)",
                "bitwise comparison: both sides run the same floating-point program in the same process with one BLAS thread",
@@ -149,6 +150,10 @@ def generate(rng):
             # two tasks: ANOTHER estimator (built from the same parameter objects) is fitted by a second task; the scheduler
             # runs its whole fit just before the at-th optimiser step of this call
             op["nested_other"] = {"at": rng.randint(1, 4), "data": rng.randrange(3)}
+        if k in ("fit", "fit_predict", "path") and not is_kauri and "nested_other" not in op and rng.random() < 0.07:
+            # two tasks in lock step: another estimator (own object, same parameter objects) is fitted by a second thread and
+            # the seeded scheduler alternates the two calls at every optimiser step / GEMINI evaluation
+            op["concurrent_other"] = {"data": rng.randrange(3), "seed": rng.randrange(2 ** 31)}
         if k in ("fit", "fit_predict", "score") and uses_precomputed_any(cfg) and rng.random() < 0.3:
             op["no_affinity"] = True      # the precomputed matrix is not passed (Kauri: documented linear fallback; others: rejected)
         if k in ("predict", "predict_proba", "score"):
@@ -497,6 +502,9 @@ def execute(record):
                                 saved_steps = w.n_steps
                                 try:
                                     other = type(_model)(**_model.get_params(deep=False))
+                                    if cfg.get("decorate"):
+                                        with quiet():
+                                            decorate(other, cfg["decorate"])
                                     harness_for(other)
                                     Xo, Ao = pool[_nested["data"]]
                                     log.emit("TASK", task="second_estimator", phase="begin")
@@ -515,14 +523,44 @@ def execute(record):
                                     _st["busy"] = False
                                     _st["done"] = True
                             world.step_hooks.append(nested_hook)
-                        try:
-                          with crash_context(op, log, res):
+                        conc = op.get("concurrent_other") if kind in ("fit", "fit_predict", "path") else None
+
+                        def the_call():
                             if base_kind == "path":
-                                ret = model.path(X, A, **args)
-                            elif base_kind == "fit_predict":
-                                ret = model.fit_predict(X, A)
+                                return model.path(X, A, **args)
+                            if base_kind == "fit_predict":
+                                return model.fit_predict(X, A)
+                            model.fit(X, A)
+                            return None
+                        try:
+                            if conc:
+                                import random as _random
+                                from ..seams import TwoTasks
+                                other = type(model)(**model.get_params(deep=False))
+                                if cfg.get("decorate"):
+                                    with quiet():
+                                        decorate(other, cfg["decorate"])      # like the estimator under test
+                                harness_for(other)
+                                Xo, Ao = pool[conc["data"]]
+                                tasks = TwoTasks(_random.Random(conc["seed"]), log)
+                                world.step_hooks.append(tasks.yield_point)
+                                world.eval_hooks.append(tasks.yield_point)
+                                box = {}
+                                try:
+                                    err1 = tasks.run(lambda: box.__setitem__("ret", the_call()), lambda: other.fit(Xo, Ao))
+                                finally:
+                                    world.step_hooks.remove(tasks.yield_point)
+                                    world.eval_hooks.remove(tasks.yield_point)
+                                ret = box.get("ret")
+                                if err1 is not None:
+                                    if isinstance(err1, (SimFault, SimBudget, HarnessError)) or is_harness_frame(err1):
+                                        raise err1
+                                    res.probe("second_task_raised:" + type(err1).__name__)
+                                res.fault("two_task_interleaving")
+                                res.probe("task_switches", tasks.switches)
                             else:
-                                model.fit(X, A)
+                                with crash_context(op, log, res):
+                                    ret = the_call()
                         finally:
                             if nested:
                                 world.step_hooks.remove(nested_hook)
